@@ -825,6 +825,52 @@ fn family_corruption(tier: Tier, sink: &mut Sink) {
     }
 }
 
+/// family 8 (thorough): double corruption of tiny base pictures: every adjacent byte pair over all
+/// 65536 values, and every pair of positions over a 16-value alphabet
+fn family_double_corruption(tier: Tier, sink: &mut Sink) {
+    if !tier.thorough() {
+        return;
+    }
+    let mut block = 0u64;
+    let alpha: [u8; 16] = [0x00, 0xFF, 0x80, 0x01, 0x7F, 0x40, 0x20, 0x10, 0x08, 0x04, 0x02, 0xFE, 0xAA, 0x55, 0xC0, 0x03];
+    for s in [Stream::SorV0, Stream::SorV1, Stream::Std] {
+        let i = valid_i(s, 16, 16, 0);
+        let hist = vec![Arc::new(i.clone())];
+        let mut bases: Vec<(String, Vec<Arc<Vec<u8>>>, Vec<u8>)> = vec![(format!("{s:?} P 16x16"), hist.clone(), valid_p(s, 16, 16, 1, 1))];
+        let tiny = encode_bytes(&Pic { hdr: stream_hdr(s, 16, 16, 0, 9, 2), mbs: vec![Mb::intra_dc([60, 70, 80, 90, 100, 110])] });
+        bases.push((format!("{s:?} I 16x16 dc-only"), vec![], tiny.clone()));
+        bases.push((format!("{s:?} I 16x16 dc-only after I"), hist.clone(), tiny));
+        for (name, hist, bytes) in &bases {
+            let opts = s.opts()[0];
+            for p in 0..bytes.len() {
+                let mine = sink.begin(8, block);
+                block += 1;
+                if !mine {
+                    continue;
+                }
+                if p + 1 < bytes.len() {
+                    for v in 0..65536u32 {
+                        let mut m = bytes.clone();
+                        m[p] = (v >> 8) as u8;
+                        m[p + 1] = v as u8;
+                        sink.case(opts, hist, &m, &|| format!("double corruption of [{name}]: bytes {p},{} -> {v:04x}", p + 1));
+                    }
+                }
+                for q in p + 2..bytes.len() {
+                    for &a in &alpha {
+                        for &b2 in &alpha {
+                            let mut m = bytes.clone();
+                            m[p] = a;
+                            m[q] = b2;
+                            sink.case(opts, hist, &m, &|| format!("double corruption of [{name}]: byte {p} -> {a:02x}, byte {q} -> {b2:02x}"));
+                        }
+                    }
+                }
+            }
+        }
+    }
+}
+
 /// family 4: raw byte strings: all strings up to n bytes alone, and all 2-byte strings after each header
 fn family_raw(tier: Tier, sink: &mut Sink) {
     let mut block = 0u64;
@@ -1025,7 +1071,7 @@ fn family_vectors(tier: Tier, sink: &mut Sink) {
 }
 
 pub fn families(tier: Tier, sink: &mut Sink) {
-    let fams: [(&str, fn(Tier, &mut Sink)); 6] = [("grammar", family_grammar), ("headers", family_headers), ("corruption", family_corruption), ("raw", family_raw), ("umv", family_umv), ("vectors", family_vectors)];
+    let fams: [(&str, fn(Tier, &mut Sink)); 7] = [("grammar", family_grammar), ("headers", family_headers), ("corruption", family_corruption), ("raw", family_raw), ("umv", family_umv), ("vectors", family_vectors), ("double-corruption", family_double_corruption)];
     for (name, f) in fams {
         let (t0, c0) = (std::time::Instant::now(), sink.cases);
         f(tier, sink);
@@ -1187,7 +1233,7 @@ pub fn run(tier: Tier) -> Report {
         rep.states.store(0, std::sync::atomic::Ordering::Relaxed);
     }
     rep.set_rule(
-        "decode_next_picture under catch_unwind (overflow checks on) in isolated single-threaded worker processes with a shared-memory journal, watchdog and address-space cap: (1) macroblock-token sequences of length 0..capacity+2 with at most d non-default letters (d=2 for pictures of <= 2 macroblocks, and <= 4 in the thorough tier; d=1 otherwise) over complete-macroblock alphabets (every MCBPC/CBPY codeword, stuffing, invalid prefixes, DQUANT, extreme/invalid MVDs, block letters: escapes 0/min/max per width, run overflow, INTRADC 0/128/255, invalid TCOEF) x 3 stream kinds x I/P/D x sizes x quantizers 1,31 x decoder histories x option sets x tails; (2) a header alphabet (zero/odd/huge/reserved sizes, all types, marker errors, PLUSPTYPE mode patterns) x bodies x histories, truncated at every byte; (3) every single-byte substitution, deletion and duplication of base pictures; (4) all byte strings of <= 2 (thorough 3) bytes alone and all 2-byte strings after headers; (6) unrestricted-motion-vector accumulations; (7) every 64x64 differential pair (one- and four-vector) at every macroblock position of small predicted pictures; plus labelled random sampling; inputs declaring more than 2^22 pixels are excluded by an exact header pre-filter; non-trivial = inputs that begin with a start code",
+        "decode_next_picture under catch_unwind (overflow checks on) in isolated single-threaded worker processes with a shared-memory journal, watchdog and address-space cap: (1) macroblock-token sequences of length 0..capacity+2 with at most d non-default letters (d=2 for pictures of <= 2 macroblocks, and <= 4 in the thorough tier; d=1 otherwise) over complete-macroblock alphabets (every MCBPC/CBPY codeword, stuffing, invalid prefixes, DQUANT, extreme/invalid MVDs, block letters: escapes 0/min/max per width, run overflow, INTRADC 0/128/255, invalid TCOEF) x 3 stream kinds x I/P/D x sizes x quantizers 1,31 x decoder histories x option sets x tails; (2) a header alphabet (zero/odd/huge/reserved sizes, all types, marker errors, PLUSPTYPE mode patterns) x bodies x histories, truncated at every byte; (3) every single-byte substitution, deletion and duplication of base pictures; (4) all byte strings of <= 2 (thorough 3) bytes alone and all 2-byte strings after headers; (6) unrestricted-motion-vector accumulations; (8, thorough) every adjacent byte pair over all 65536 values and every pair of positions over a 16-value alphabet on tiny base pictures; (7) every 64x64 differential pair (one- and four-vector) at every macroblock position of small predicted pictures; plus labelled random sampling; inputs declaring more than 2^22 pixels are excluded by an exact header pre-filter; non-trivial = inputs that begin with a start code",
     );
     rep.sample(json!({"family": "grammar", "case": "Sorenson v1 P 32x16 q=31 after [I 32x32]: [inter mv0, blk0 escape-max, inter mv0] + following start code"}));
     rep.sample(json!({"family": "headers", "case": "Sorenson v0 size 0x16 type 0, body = 1 default macroblock, after [I 16x16, D 16x16]"}));
